@@ -143,7 +143,8 @@ def probe_core(p, fn_names, gl_names, names=NAMES):
     if isinstance(p, bytes):
         names = [n.encode('latin-1') for n in names]
     cf = Ctx(ffl, 'fn')
-    cg = Ctx(gfl, 'gl')
+    # GLOBTILDE with REALPATH asks the account database during translate()/globmatch(): a NUL (literal or decoded) may reach the OS
+    cg = Ctx(gfl, 'gl', nul=nul_possible(p, gfl))
     r = guarded(problems, 'fnmatch.translate', cf, p, fn_names, lambda: F.translate(p, flags=ffl))
     if r is not None:
         check_regexes(r, problems, 'fnmatch.translate', p, fn_names)
@@ -290,6 +291,8 @@ def record(out, problems, armed, case_extra=None):
 
 GROUP_TOKENS = ['!(', '?(', '+(', ')', '|', 'a', '*', '[', ']']
 MID_TOKENS = ['!(', '?(', '*(', ')', '|', 'a', '*', '/', '.', '[', ']', '\\', '-']
+# the inside of one bracket expression (the enumeration wraps every sequence in `[` ... `]`)
+BRACKET_TOKENS = ['-', 'a', 'z', '[:alpha:]', '[:digit:]', '\\-', '!', '^', ']', '\\', '[', '0']
 
 
 def shards(tier, seed, scale=1.0):
@@ -304,12 +307,14 @@ def shards(tier, seed, scale=1.0):
         enum('tokens', TOKENS, 4, 8, 2)
         enum('grouptokens', GROUP_TOKENS, 5, 4, 2)
         enum('grouptokens6', GROUP_TOKENS, 6, 32, 1, 6)
+        enum('brackets', BRACKET_TOKENS, 4, 8, 1)
         hyp_n, fuzz_runs, fuzz_shards = 2500, 8000, 4
     else:
         enum('strings', list(ALPHA), 6, 64, 3)
         enum('tokens', TOKENS, 5, 32, 3)
         enum('midtokens', MID_TOKENS, 6, 64, 3)
         enum('grouptokens', GROUP_TOKENS, 7, 64, 3)
+        enum('brackets', BRACKET_TOKENS, 6, 64, 2)
         hyp_n, fuzz_runs, fuzz_shards = 40000, 250000, 16
     hyp_n = max(20, int(hyp_n * scale))
     for s in range(16):
@@ -350,6 +355,8 @@ def run_enum(desc):
             if idx % S != s:
                 continue
             p = ''.join(tup)
+            if kind == 'brackets':
+                p = '[' + p + ']'
             if multi:
                 # different token sequences can spell the same text ('*', '(' vs '*('): evaluate once per shard
                 hp = hash(p)
